@@ -419,7 +419,7 @@ def load(f, **options):  # type: (typing.IO, **typing.Any) -> canmatrix.CanMatri
                         )
 
                 # key value:
-                elif line.startswith('Var') or line.startswith('Mux'):
+                elif line.startswith('Var=') or line.startswith('Mux='):
                     tmp_mux = line[:3]
                     line = line[4:]
                     # comment = ""
@@ -613,7 +613,7 @@ def load(f, **options):  # type: (typing.IO, **typing.Any) -> canmatrix.CanMatri
                     if display_decimal_places is not None:
                         signal.add_attribute("DisplayDecimalPlaces", display_decimal_places)
                     # variable processing
-                elif line.startswith('ID'):
+                elif line.startswith('ID='):
                     comment = ""
                     if '//' in line:
                         split = line.split('//', 1)
@@ -621,13 +621,13 @@ def load(f, **options):  # type: (typing.IO, **typing.Any) -> canmatrix.CanMatri
                         line = split[0].strip()
                     frame.arbitration_id.id = int(line.split('=')[1].strip()[:-1], 16)
                     frame.add_comment(comment)
-                elif line.startswith('Type'):
+                elif line.startswith('Type='):
                     if line.split('=')[1][:8] == "Extended":
                         frame.arbitration_id.extended = 1
-                elif line.startswith('DLC'):
+                elif line.startswith('DLC='):
                     frame.size = int(line.split('=')[1])
 
-                elif line.startswith('CycleTime'):
+                elif line.startswith('CycleTime='):
                     frame.cycle_time = int(line.split('=')[1].strip())
                 #        else:
                 #                print line
